@@ -66,14 +66,34 @@ fn from_value(v: &Value) -> Val {
     });
     Val { coin: u64::from(v.coin()), ma }
 }
+/// `extra` (opaque for the model): 32 bytes = data hash; D1 ++ payload = inline datum (bytes payload);
+/// 5C ++ keyhash28 = script reference (native pubkey script); DC ++ keyhash28 ++ payload = both
+fn script_ref_of(kh: &[u8]) -> ScriptRef {
+    ScriptRef::new_native_script(&NativeScript::new_script_pubkey(&ScriptPubkey::new(&Ed25519KeyHash::from_bytes(kh.to_vec()).expect("key hash"))))
+}
 fn to_output(o: &Outp) -> TransactionOutput {
     let mut out = TransactionOutput::new(&Address::from_bytes(o.addr.clone()).expect("address"), &to_value(&o.val));
-    if !o.extra.is_empty() { out.set_data_hash(&DataHash::from_bytes(o.extra.clone()).expect("data hash")); }
+    let e = &o.extra;
+    if e.is_empty() { return out; }
+    if e.len() == 32 { out.set_data_hash(&DataHash::from_bytes(e.clone()).expect("data hash")); return out; }
+    match e[0] {
+        0xD1 => out.set_plutus_data(&PlutusData::new_bytes(e[1..].to_vec())),
+        0x5C => out.set_script_ref(&script_ref_of(&e[1..29])),
+        0xDC => { out.set_script_ref(&script_ref_of(&e[1..29])); out.set_plutus_data(&PlutusData::new_bytes(e[29..].to_vec())); }
+        _ => panic!("extra syntax"),
+    }
     out
 }
 fn from_output(o: &TransactionOutput) -> Outp {
-    let extra = if let Some(h) = o.data_hash() { h.to_bytes() }
-                else if o.has_plutus_data() || o.has_script_ref() { vec![0xEE] } else { vec![] };
+    let kh = o.script_ref().and_then(|r| r.native_script()).and_then(|n| n.as_script_pubkey()).map(|k| k.addr_keyhash().to_bytes());
+    let datum = o.plutus_data().and_then(|d| d.as_bytes());
+    let extra = if let Some(h) = o.data_hash() { if o.has_script_ref() { vec![0xEE] } else { h.to_bytes() } }
+                else { match (kh, datum, o.has_script_ref(), o.has_plutus_data()) {
+                    (None, None, false, false) => vec![],
+                    (Some(k), None, true, false) => { let mut v = vec![0x5C]; v.extend(k); v }
+                    (None, Some(d), false, true) => { let mut v = vec![0xD1]; v.extend(d); v }
+                    (Some(k), Some(d), true, true) => { let mut v = vec![0xDC]; v.extend(k); v.extend(d); v }
+                    _ => vec![0xEE] } };
     Outp { addr: o.address().to_bytes(), val: from_value(&o.amount()), extra }
 }
 
@@ -360,32 +380,93 @@ fn rand_collateral(r: &mut Rng, assets_pct: u64, odd: bool) -> Vec<(Vec<u8>, u32
 /// the library's own sum of a collateral set (None when it overflows)
 fn sum_of(ins: &[(Vec<u8>, u32, Val)]) -> Option<Val> { collateral_builder(ins).total_value().ok().map(|v| from_value(&v)) }
 
-/// a return output derived from the sum: equal / fewer / more / foreign assets, coin variants
-fn derived_return(r: &mut Rng, c: &Case, sum: &Val) -> Outp {
-    let mut v = sum.clone();
-    match r.below(10) {
-        0 | 1 | 2 | 3 => {}                                                                            // all assets, as held
-        4 => { if let Some(p) = v.ma.as_mut() { if !p.is_empty() { let i = r.below(p.len() as u64) as usize;
-                 if p[i].1.len() > 1 && r.chance(1, 2) { let j = r.below(p[i].1.len() as u64) as usize; p[i].1.remove(j); } else { p.remove(i); } } } }   // fewer
-        5 => { if let Some(p) = v.ma.as_mut() { if !p.is_empty() { let i = r.below(p.len() as u64) as usize;
-                 if !p[i].1.is_empty() { let j = r.below(p[i].1.len() as u64) as usize; p[i].1[j].1 = p[i].1[j].1.saturating_sub(1 + r.below(2)); } } } }       // less of one
-        6 => { if let Some(p) = v.ma.as_mut() { if !p.is_empty() { let i = r.below(p.len() as u64) as usize;
-                 if !p[i].1.is_empty() { let j = r.below(p[i].1.len() as u64) as usize; p[i].1[j].1 = p[i].1[j].1.saturating_add(1); } } } }                  // more of one
-        7 => { let mut p = v.ma.take().unwrap_or_default(); p.push((policy(7), vec![(vec![0x66], 1 + r.below(5))])); v.ma = Some(canon(p)); }                     // foreign
-        8 => { v.ma = None; }                                                                             // none of the assets
-        _ => { if v.ma.is_none() && r.chance(1, 2) { v.ma = Some(vec![]); } }
+/// a name related to `n`: proper prefix, one byte longer, same length / other last byte, empty, or unrelated
+/// (AssetName order is length-first, so these land before / after / next to `n` in the map)
+fn related_name(r: &mut Rng, n: &[u8]) -> Vec<u8> {
+    let mut v = n.to_vec();
+    match r.below(6) {
+        0 => { if v.is_empty() { v.push(0x00); } else { v.pop(); } }
+        1 => { if v.len() < 32 { v.push(*r.pick(&[0x00u8, 0x41, 0xff])); } else { v.pop(); } }
+        2 => { if let Some(l) = v.last_mut() { *l = l.wrapping_add(if r.chance(1, 2) { 1 } else { 0xff }); } else { v.push(0x41); } }
+        3 => { v = vec![]; }
+        4 => { v = vec![0x66]; }
+        _ => { if v.len() < 32 { v.insert(0, 0x00); } else { v[0] ^= 1; } }
     }
-    let mut o = Outp { addr: any_addr(r), val: v, extra: if r.chance(1, 6) { vec![0x5A; 32] } else { vec![] } };
-    // coin: around the minimum, around the whole sum, or in between
+    v
+}
+fn put(a: &mut Vec<(Vec<u8>, u64)>, n: Vec<u8>, q: u64) { if let Some(e) = a.iter_mut().find(|e| e.0 == n) { e.1 = q; } else { a.push((n, q)); } }
+
+/// Every structural relation between the return's assets and the inputs' (the sum `v`), one per call.
+/// Returns the name of the relation (for debugging only).
+fn mutate_assets(r: &mut Rng, v: &mut Val, k: u64) -> &'static str {
+    let held = v.ma.clone().unwrap_or_default();
+    let nonempty: Vec<usize> = (0..held.len()).filter(|i| !held[*i].1.is_empty()).collect();
+    let mut p = held.clone();
+    let pick_pol = |r: &mut Rng| if nonempty.is_empty() { None } else { Some(*r.pick(&nonempty)) };
+    let what = match k {
+        0 => { "equal" }
+        1 => { if !p.is_empty() { let i = r.below(p.len() as u64) as usize; p.remove(i); } "policy-missing" }
+        2 => { if let Some(i) = pick_pol(r) { let j = r.below(p[i].1.len() as u64) as usize; p[i].1.remove(j); if p[i].1.is_empty() && r.chance(1, 2) { p.remove(i); } } "name-missing" }
+        3 => { if let Some(i) = pick_pol(r) { let j = r.below(p[i].1.len() as u64) as usize; p[i].1[j].1 = p[i].1[j].1.saturating_sub(1 + r.below(2)); } "quantity-less" }
+        4 => { if let Some(i) = pick_pol(r) { let j = r.below(p[i].1.len() as u64) as usize; p[i].1[j].1 = p[i].1[j].1.saturating_add(1); } "quantity-more" }
+        5 => { p.push((policy(7), vec![(vec![0x66], 1 + r.below(5))])); "foreign-policy" }
+        6 => { // foreign NAME under a HELD policy (related to a held name: prefix / longer / neighbour / empty)
+               if let Some(i) = pick_pol(r) { let j = r.below(p[i].1.len() as u64) as usize; let n = related_name(r, &p[i].1[j].0.clone());
+                   if !p[i].1.iter().any(|e| e.0 == n) { let q = 1 + r.below(9); p[i].1.push((n, q)); } } "foreign-name-held-policy" }
+        7 => { // HELD name under a foreign policy
+               if let Some(i) = pick_pol(r) { let j = r.below(p[i].1.len() as u64) as usize; let e = p[i].1[j].clone(); let np = policy(4 + r.below(3));
+                   if let Some(x) = p.iter_mut().find(|x| x.0 == np) { put(&mut x.1, e.0, e.1); } else { p.push((np, vec![e])); } } "held-name-foreign-policy" }
+        8 => { // superset within every held policy
+               for x in p.iter_mut() { if let Some(e) = x.1.first().cloned() { let n = related_name(r, &e.0); if !x.1.iter().any(|y| y.0 == n) { x.1.push((n, 1)); } } } "superset-per-policy" }
+        9 => { // subset within every held policy (first name only)
+               for x in p.iter_mut() { x.1.truncate(1); } "subset-per-policy" }
+        10 => { if let Some(i) = pick_pol(r) { p[i].1.clear(); } "empty-assets-held-policy" }
+        11 => { p.push((policy(4 + r.below(3)), vec![])); "empty-assets-foreign-policy" }
+        12 => { // zero quantity of a foreign name under a held policy / of a foreign policy (adds nothing)
+               if let (Some(i), true) = (pick_pol(r), r.chance(2, 3)) { let n = related_name(r, &p[i].1[0].0.clone()); if !p[i].1.iter().any(|e| e.0 == n) { p[i].1.push((n, 0)); } }
+               else { p.push((policy(6), vec![(vec![0x41], 0)])); } "zero-quantity-extra" }
+        13 => { if let Some(i) = pick_pol(r) { let j = r.below(p[i].1.len() as u64) as usize; p[i].1[j].1 = 0; } "zero-quantity-held" }
+        14 => { v.ma = None; return "no-assets"; }
+        15 => { v.ma = Some(vec![]); return "present-but-empty"; }
+        16 => { // swap the quantities of two names (same multiset of numbers, other assignment)
+               if let Some(i) = pick_pol(r) { if p[i].1.len() >= 2 { let a = p[i].1[0].1; p[i].1[0].1 = p[i].1[1].1; p[i].1[1].1 = a; } } "quantities-swapped" }
+        _ => { // same names moved to another (foreign) policy entirely
+               if let Some(i) = pick_pol(r) { p[i].0 = policy(4 + r.below(3)); let mut seen: Vec<Vec<u8>> = vec![]; p.retain(|x| { let d = seen.contains(&x.0); seen.push(x.0.clone()); !d }); } "policy-renamed" }
+    };
+    v.ma = if p.is_empty() && v.ma.is_none() { None } else { Some(canon(p)) };
+    what
+}
+const N_ASSET_RELATIONS: u64 = 18;
+
+fn rand_extra(r: &mut Rng) -> Vec<u8> {
+    match r.below(5) {
+        0 => vec![0x5A; 32],
+        1 => { let mut v = vec![0xD1]; v.extend(vec![0x77; r.below(60) as usize]); v }
+        2 => { let mut v = vec![0x5C]; v.extend(vec![0x88; 28]); v }
+        3 => { let mut v = vec![0xDC]; v.extend(vec![0x88; 28]); v.extend(vec![0x77; 1 + r.below(40) as usize]); v }
+        _ => vec![],
+    }
+}
+
+/// a return output derived from the sum: `rel` = which asset relation (None: mostly equal), coin variants around
+/// the minimum ADA of the FULL output, of the bare (address + value) output, around the whole sum, 0 and 64-bit edges
+fn derived_return_rel(r: &mut Rng, c: &Case, sum: &Val, rel: Option<u64>) -> Outp {
+    let mut v = sum.clone();
+    let k = match rel { Some(k) => k, None => if r.chance(2, 5) { 0 } else { r.below(N_ASSET_RELATIONS) } };
+    mutate_assets(r, &mut v, k);
+    let mut o = Outp { addr: any_addr(r), val: v, extra: if r.chance(1, 4) { rand_extra(r) } else { vec![] } };
     let m = { o.val.coin = sum.coin / 2; min_ada_of(c, &o).unwrap_or(1_000_000) };
-    o.val.coin = match r.below(10) {
+    let bare = { let b = Outp { addr: o.addr.clone(), val: o.val.clone(), extra: vec![] }; min_ada_of(c, &b).unwrap_or(1_000_000) };
+    o.val.coin = match r.below(12) {
         0 => m, 1 => m.saturating_sub(1), 2 => m.saturating_add(1), 3 => sum.coin, 4 => sum.coin.saturating_add(1), 5 => sum.coin.saturating_sub(1),
         6 => 0, 7 => r.u64_edge(),
+        8 => bare, 9 => if m > bare { bare + r.below(m - bare) } else { bare.saturating_sub(1) },      // between the bare and the full minimum
         _ => if sum.coin > m { m + r.below((sum.coin - m).saturating_add(1)) } else { sum.coin / 2 },
     };
     if let Some(m2) = min_ada_of(c, &o) { if r.chance(1, 5) { o.val.coin = if r.chance(1, 2) { m2 } else { m2.saturating_sub(1) }; } }
     o
 }
+fn derived_return(r: &mut Rng, c: &Case, sum: &Val) -> Outp { derived_return_rel(r, c, sum, None) }
 fn derived_total(r: &mut Rng, c: &Case, sum: &Val) -> u64 {
     let probe = Outp { addr: addr_bytes(0x20), val: Val { coin: sum.coin / 2, ma: sum.ma.clone() }, extra: vec![] };
     let m = min_ada_of(c, &probe).unwrap_or(1_000_000);
@@ -440,9 +521,13 @@ fn gen(dir: &str) {
     for k in 0..(700 * scale) {
         let mut c = scenario(&mut r, "rt");
         let odd = k % 4 == 3;
-        let ins = rand_collateral(&mut r, 60, odd);
+        let ins = rand_collateral(&mut r, if k % 2 == 1 { 90 } else { 60 }, odd);
         if let Some(sum) = sum_of(&ins) {
-            let o = derived_return(&mut r, &c, &sum);
+            let o = if k % 2 == 0 { derived_return(&mut r, &c, &sum) } else {
+                // every relation in turn, coin comfortably between min ADA and the sum when possible: the assets alone decide
+                let mut o = derived_return_rel(&mut r, &c, &sum, Some((k / 2) % N_ASSET_RELATIONS));
+                if let Some(m) = min_ada_of(&c, &o) { if r.chance(4, 5) && sum.coin > m { o.val.coin = m + (sum.coin - m) / 2; } }
+                o };
             c.ops = vec![Op::C(ins), Op::RT(o)];
         } else {
             c.ops = vec![Op::C(ins), Op::RT(Outp { addr: addr_bytes(0x21), val: Val { coin: 2_000_000, ma: None }, extra: vec![] })];
